@@ -157,7 +157,38 @@ type Ctx struct {
 
 func (c *Ctx) Quick() bool { return c.Tier != "thorough" }
 
-func (c *Ctx) Expired() bool { return c.Budget > 0 && time.Since(c.Start) > c.Budget }
+func (c *Ctx) Expired() bool {
+	if c.Budget > 0 && time.Since(c.Start) > c.Budget {
+		return true
+	}
+	return memoryHigh()
+}
+
+// memoryHigh: the process uses more than 2.5 GB of resident memory (16 workers share the machine; the
+// race detector's shadow memory is not visible to the Go heap statistics, hence /proc). Treated like the
+// time budget: the run ends with what it has, exhaustive:false, exit 0 - never with a killed worker.
+func memoryHigh() bool {
+	memChecks++
+	if memChecks%64 != 1 {
+		return memWasHigh
+	}
+	b, err := os.ReadFile("/proc/self/statm")
+	if err != nil {
+		return false
+	}
+	f := strings.Fields(string(b))
+	if len(f) < 2 {
+		return false
+	}
+	pages, _ := strconv.ParseInt(f[1], 10, 64)
+	memWasHigh = pages*int64(os.Getpagesize()) > 2500<<20
+	return memWasHigh
+}
+
+var (
+	memChecks  int
+	memWasHigh bool
+)
 
 // RunWorkers re-executes this binary n times (`<self> <ID> <tier> --worker i/n extra...`), at most
 // par at a time, and merges their reports. A worker that dies (fatal error, panic, kill) yields a
